@@ -531,6 +531,9 @@ func runTx5(c *core.Ctx) {
 					// one variable for both (read back, or drawn and persisted)
 				case !afterInsert && !an.Reachable(ins.Block(), rb, nil, nil) && loadedVar != nil && loadOf(r.Results[0]) == loadedVar && holdsScanned(seedFn, loadedVar, rb, nil):
 					// no insert on this way out: the variable the seed was scanned into (a named result)
+				case !afterInsert && !an.Reachable(ins.Block(), rb, nil, nil) && seedFromLoader(seedFn, resolveRet(r.Results[0], nil), rb):
+					// no insert on this way out: the stored seed, read by a loader helper that says whether
+					// there was one (`seed, ok, err := LoadSeed(ctx, db); … if ok { return seed, nil }`)
 				case afterInsert && onlyIfEmpty && readBack != nil && loadedVar != nil && loadOf(r.Results[0]) == loadedVar && holdsScanned(seedFn, loadedVar, rb, readBack) && (!inTx || seedTxCommitted(seedFn, rb)):
 					// insert-if-empty, then the stored seed read back (and, in a transaction, committed):
 					// whoever inserted, the value returned is the one row of the table
@@ -883,6 +886,15 @@ func runBatchAll(c *core.Ctx) {
 			if strings.HasPrefix(cp, "call:") && strings.Contains(cp, "getEventKey(") && strings.HasSuffix(cp, "#1") && !cd.True {
 				reason = true
 			}
+			// behind a switch that is off unless asked for: `if cutoff != 0 { … continue }` on a parameter for
+			// which the plain entry point passes the constant 0 (`insertEvents` delegating to `insertEventsAt(…, 0)`)
+			if b, isBin := cd.V.(*ssa.BinOp); isBin && (b.Op == token.NEQ) == cd.True && (b.Op == token.NEQ || b.Op == token.EQL) {
+				if k, isK := an.ConstInt(b.Y); isK && k == 0 {
+					if par, isPar := b.X.(*ssa.Parameter); isPar && defaultOffParam(c, par, 0) {
+						reason = true
+					}
+				}
+			}
 			// the element is nil: there is no event to store (`if event == nil { continue }`)
 			if b, isBin := cd.V.(*ssa.BinOp); isBin && an.IsNilConst(b.Y) && (b.Op == token.EQL) == cd.True && strings.HasSuffix(cp, "[*] == const:nil)") && typeNameOf(b.X.Type()) == "Event" {
 				reason = true
@@ -1052,4 +1064,148 @@ func tx1Explicit(c *core.Ctx, fn *ssa.Function, begin *ssa.Call, slot *ssa.Alloc
 func isUint32(t types.Type) bool {
 	b, ok := t.Underlying().(*types.Basic)
 	return ok && b.Kind() == types.Uint32
+}
+
+// defaultOffParam: some call site of the parameter's function in the module passes the constant 0 for
+// it — directly, or by handing on a parameter of its own for which that holds (three levels).
+func defaultOffParam(c *core.Ctx, par *ssa.Parameter, depth int) bool {
+	if depth > 3 {
+		return false
+	}
+	fn := par.Parent()
+	idx := -1
+	for i, q := range fn.Params {
+		if q == par {
+			idx = i
+		}
+	}
+	if idx < 0 {
+		return false
+	}
+	for _, caller := range callerIndex(c)[fn] {
+		for _, call := range callsTo(caller, fn) {
+			if idx >= len(call.Call.Args) {
+				continue
+			}
+			a := call.Call.Args[idx]
+			if k, ok := an.ConstInt(a); ok && k == 0 {
+				return true
+			}
+			if p2, ok := a.(*ssa.Parameter); ok && defaultOffParam(c, p2, depth+1) {
+				return true
+			}
+		}
+	}
+	return false
+}
+
+// seedFromLoader: v, returned from block rb of fn, is result #0 of a loader helper (seed, ok, err) —
+// and rb is reached only with ok true and err nil — whose every (·, true, nil) return hands out the
+// variable the seed table's row was scanned into, on paths where that Scan succeeded. Presence is
+// told by the bool, never by the seed's value (0 is a seed like any other).
+func seedFromLoader(fn *ssa.Function, v ssa.Value, rb *ssa.BasicBlock) bool {
+	ex, ok := v.(*ssa.Extract)
+	if !ok || ex.Index != 0 {
+		return false
+	}
+	call, ok := ex.Tuple.(*ssa.Call)
+	if !ok {
+		return false
+	}
+	g := an.StaticCallee(&call.Call)
+	if !an.PrivateHelper(g) || g.Signature.Results().Len() != 3 {
+		return false
+	}
+	// reached only with ok == true and err == nil
+	okTrue, errNil := false, false
+	for _, gd := range an.Guards(fn, rb) {
+		gd = an.NormCond(gd)
+		if e, isE := gd.V.(*ssa.Extract); isE && e.Tuple == ssa.Value(call) && e.Index == 1 && gd.True {
+			okTrue = true
+		}
+		if b, isB := gd.V.(*ssa.BinOp); isB && an.IsNilConst(b.Y) && (b.Op == token.EQL) == gd.True {
+			if e, isE := b.X.(*ssa.Extract); isE && e.Tuple == ssa.Value(call) && e.Index == 2 {
+				errNil = true
+			}
+		}
+	}
+	if !okTrue || !errNil {
+		return false
+	}
+	// the loader
+	var scan *ssa.Call
+	for _, ci := range calls(g) {
+		if c2, isC := ci.(*ssa.Call); isC && strings.HasSuffix(an.CalleeName(&c2.Call), "sql.Row).Scan") && strings.Contains(an.PathOf(c2.Call.Args[0]), "select seed from xxhash_seed") {
+			scan = c2
+		}
+	}
+	if scan == nil {
+		return false
+	}
+	dst, _ := an.VariadicElems(scan.Call.Args[len(scan.Call.Args)-1])
+	if len(dst) != 1 {
+		return false
+	}
+	d := dst[0]
+	if mi, isMI := d.(*ssa.MakeInterface); isMI {
+		d = mi.X
+	}
+	loaded, _ := d.(*ssa.Alloc)
+	if loaded == nil {
+		return false
+	}
+	n := 0
+	for _, grb := range an.ReturnBlocks(g) {
+		ps, okP := an.PathsTo(g, grb, 256)
+		if !okP {
+			return false
+		}
+		ret := an.LastInstr(grb).(*ssa.Return)
+		for _, p := range ps {
+			if !an.Feasible(p) {
+				continue
+			}
+			rvs := an.ReturnValues(ret)
+			present := resolveRet(rvs[1], p)
+			k, isK := present.(*ssa.Const)
+			if !isK || k.Value == nil {
+				return false
+			}
+			if k.Value.String() != "true" {
+				continue
+			}
+			n++
+			// (seed variable, true, nil) with the Scan's error found nil on the way
+			if !an.IsNilConst(resolveRet(rvs[2], p)) {
+				return false
+			}
+			// (a named result is spilled and reloaded on the way out: any stage of that is a read of the variable)
+			fromVar := false
+			for v0, i := rvs[0], 0; i < 4; i++ {
+				if u, isU := v0.(*ssa.UnOp); isU && u.Op == token.MUL && u.X == ssa.Value(loaded) {
+					fromVar = true
+					break
+				}
+				nv := resolveRet(v0, p)
+				if nv == v0 {
+					break
+				}
+				v0 = nv
+			}
+			if !fromVar {
+				return false
+			}
+			scanOK := false
+			for _, cd := range p.Conds() {
+				cd = an.NormCond(cd)
+				if b, isB := cd.V.(*ssa.BinOp); isB && an.IsNilConst(b.Y) && (b.Op == token.EQL) == cd.True && resolveRet(b.X, p) == ssa.Value(scan) {
+					scanOK = true
+				}
+			}
+			if !scanOK {
+				return false
+			}
+		}
+	}
+	return n > 0
 }
